@@ -1,4 +1,4 @@
 SPECIFICATION Spec
 CONSTANTS MaxN = 8 MaxR = 3 MaxTofMash = 3
-INVARIANTS Inv1 Inv2 Inv3 Inv4 Inv5 Inv6 Inv7
+INVARIANTS Inv1 Inv2 Inv3 Inv4 Inv5 Inv6 Inv7 Inv8 Inv9 Inv13
 CHECK_DEADLOCK FALSE
